@@ -183,6 +183,23 @@ def gen_namechars(tier):
                    "meta": {"gen": "namechars", "ch": "choice-column", "lenient": True, "name_channel": "choice-col-badname"}, "id": "data"}
 
 
+def gen_lists_cols(tier):
+    """several choice lists x extra columns whose header is not an element name (dropped with a warning): the value may sit
+    in the first list, a later list, or all of them"""
+    for hdr in ("my col", "a b c", " x"):
+        for nlists in (1, 2, 3):
+            for mask in range(1, 1 << nlists):
+                ch = []
+                for li in range(nlists):
+                    for ci in range(2):
+                        r = {"list_name": f"l{li}", "name": f"n{ci}", "label": f"L{li}{ci}"}
+                        if mask >> li & 1:
+                            r[hdr] = f"v{li}{ci}"
+                        ch.append(r)
+                sv = [{"type": f"select_one l{li}", "name": f"s{li}", "label": "S"} for li in range(nlists)]
+                yield {"wb": {"survey": sv, "choices": ch}, "meta": {"gen": "lists-cols", "ch": f"{nlists}"}, "id": "data"}
+
+
 CHANNELS = ["label", "hint", "guidance_hint", "constraint_message", "required_message", "glabel",
             "clabel", "cextra", "default", "form_title", "version", "appearance", "attrval",
             "instval", "bindval", "instance_name", "label_lang"]
@@ -283,7 +300,7 @@ def gen_containers(tier):
 
 SPACE = GenSpace(
     {"names": gen_names, "types": gen_types, "layouts": gen_layouts, "containers": gen_containers,
-     "settings": gen_settings, "text": gen_text, "namechars": gen_namechars},
+     "settings": gen_settings, "text": gen_text, "namechars": gen_namechars, "lists-cols": gen_lists_cols},
     chunk=250,
 )
 blocks = SPACE.blocks
